@@ -95,3 +95,9 @@ CHECKS['C08'] = dict(
     text='Reference ladder (override > transport > BOM/@charset > referring sheet > UTF-8) decides the expected encoding of every sheet in import chains of depth 1-3 served by a recording fetcher; depth 1 exhaustive (override x transport x content x parent x delivery x fetcher result), deeper chains generated; observed through sheet.encoding and through probe bytes that decode differently under every candidate encoding. Entry points parseString/parseUrl/parseFile. Generated DOMs with non-ASCII content under 8 target encodings: encoding == @charset rule, cssText decodable, reparse gives the same projection.',
     note='A BOM that is decoded under a non-UTF-8 override/transport encoding becomes three characters of text; those rows check only the reported encoding.',
 )
+
+CHECKS['C19'] = dict(
+    technique='model-predicted URL list and replacer metamorphic relations over generated sheets; generated import trees over a virtual file system against a reference expansion with urljoin as resolving oracle',
+    text='urls: the abstract-stylesheet model predicts getUrls (imports first, document order, url() inside functions and nested rules); replaceUrls with a recording injective replacer, its inverse, the identity, ignoreImportRules and the declaration-level dispatch. flatten: generated trees of 2-6 sheets in 7 directories on two hosts (every href form, media edges, missing targets, unwrappable rule kinds, 15 URL forms) served by a recording fetcher; the flat sheet, its serialisation (normal/minified, 5 encodings) and script.csscombine on a real temporary tree are compared with a reference expansion: each rule once, cascade order, media context, every URL resolving to its original absolute URL, kept @imports justified, available targets fetched once.',
+    note='Position of kept @imports is not judged; repeated requests for missing targets while flattening are the listed finding F19-1.',
+)
